@@ -6,7 +6,7 @@ E-PROD.  A *compiled configuration* is one point of
     create_multi_block_mechanics_functions with 1/2/3 blocks of one material, create_dynamics_functions with two
     (beta, dt)} x mode2D {plane strain, axisymmetric at r>0} x pressure projection {None, 0, 1} x material.
 Inside every compiled configuration the FULL product
-    internal state {initial, after one (thorough: two) real compute_updated_internal_variables steps}
+    internal state {initial, after one and after two real compute_updated_internal_variables steps}
     x displacement field {zero, affine, quadratic, seeded smooth} x UPredicted {zero, nonzero} (dynamics)
     x ALL 2^8 subsets of 8 labelled (node group, component) essential-BC pairs
 is executed: one assemble_sparse_stiffness_matrix(compute_element_stiffnesses(...), conns, DofManager) per point,
@@ -156,7 +156,7 @@ def _thorough_configs():
                 if fac.startswith("mb") and mode == "axi":
                     continue
                 for mat in ("neo", "gent", "visco"):
-                    if mat == "visco" and fac in ("mb2", "mb3", "dynB", "mb1"):
+                    if mat == "visco" and (fac in ("mb2", "mb3", "dynB", "mb1") or mode == "axi"):
                         continue
                     h = stable_hash("C02b|%s|%s|%s|%s" % (pp, fac, mode, mat))
                     order = 2 + (h // 6) % 2
@@ -179,7 +179,7 @@ def _configs(tier):
 def bounds(tier):
     cfgs = _configs(tier)
     return {"compiled_configurations": len(cfgs), "bc_pairs": NPAIRS, "bc_subsets_per_configuration": 1 << NPAIRS,
-            "fields": ["zero", "affine", "quadratic", "smooth"], "states": ["init", "upd1"] + (["upd2"] if tier == "thorough" else []),
+            "fields": ["zero", "affine", "quadratic", "smooth"], "states": ["init", "upd1", "upd2"],
             "UPredicted": ["zero", "nonzero"], "create_field_jacobian_masks": len(JAC_MASKS),
             "axes": {"mesh": MESHES, "variant": VARIANTS, "order": [1, 2, 3, 4], "quadrature": ["2(p-1)v1", "+2"],
                      "factory": FACTORIES, "mode2D": ["ps", "axi"], "pressureProjection": [None, 0, 1],
@@ -443,6 +443,25 @@ def _mismatch_key(g, upred, tangent, sig):
 
 
 # ------------------------------------------------------------------------------------------ driver
+PER_KEY = 12
+
+
+def _cap_violations_per_key(rec):
+    """The recorder stores at most 200 violations per group; one defect produces thousands of failing cases here
+    (256 subsets x fields x states), which would crowd out a *different* key found later in the same group.
+    Keep the first PER_KEY cases of every key, count the rest."""
+    orig = rec.violation
+    seen = {}
+
+    def violation(key, cid, detail):
+        seen[key] = seen.get(key, 0) + 1
+        if seen[key] <= PER_KEY:
+            orig(key, cid, detail)
+        else:
+            rec.branch("violating-cases-not-stored (beyond %d per key and group)" % PER_KEY)
+    rec.violation = violation
+
+
 def run_group(g, tier, seed, rec):
     import jax
     import jax.numpy as jnp
@@ -451,6 +470,7 @@ def run_group(g, tier, seed, rec):
     from optimism.SparseMatrixAssembler import assemble_sparse_stiffness_matrix
 
     cfgid = "cfg=" + g["name"]
+    _cap_violations_per_key(rec)
     P = _build(g, seed)
     kind = _fkind(g)
     mat = _material(g["mat"])
@@ -532,8 +552,6 @@ def run_group(g, tier, seed, rec):
     if stateful:
         st = st0
         for lvl, fname in ((1, "load1"), (2, "load2")):
-            if lvl == 2 and tier != "thorough":
-                break
             stn = lib(lambda: update(jnp.array(P.fields[fname]), st, dt), cid0, "compute_updated_internal_variables")
             if stn is None:
                 rec.case(cid0, nontrivial=False, outcome="exception")
@@ -562,8 +580,6 @@ def run_group(g, tier, seed, rec):
         s = s0
         if stateful:
             for lvl, fname in ((1, "load1"), (2, "load2")):
-                if lvl == 2 and tier != "thorough":
-                    break
                 s = S.compute_updated_internal_variables(jnp.array(P.fields[fname]), s, dt)
                 sstates.append(("upd%d" % lvl, s))
         Eref = abs(float(S_energy(jnp.array(P.fields["load1"]), s0, dt)))
@@ -740,8 +756,9 @@ def run_group(g, tier, seed, rec):
             D = onp.abs(K - Huu)
             d = float(D.max()) if D.size else 0.0
             a = float(onp.abs(K - K.T).max()) if K.size else 0.0
-            rec.track_max("stiffness vs hessian max|K-H|/max|H| [%s]" % kind, d / Hmax)
-            rec.track_max("asymmetry max|K-K^T|/max|H| [%s]" % kind, a / Hmax)
+            tl = kind if kind != "dynamics" else "dynamics,UPredicted=%s,tangent=%s" % (upl, tangent_cfg)
+            rec.track_max("stiffness vs hessian max|K-H|/max|H| [%s]" % tl, d / Hmax)
+            rec.track_max("asymmetry max|K-K^T|/max|H| [%s]" % tl, a / Hmax)
             if not d <= tau:
                 ok = False
                 key = _mismatch_key(g, upl, tangent_cfg, "stiffness-ne-hessian")
